@@ -7,7 +7,7 @@ set -u
 W=$(mktemp -d /var/tmp/huntXXXX)
 git -C /repo worktree add --detach "$W/r" HEAD >/dev/null 2>&1 || exit 2
 mkdir -p "$W/r/tests"
-for h in /verif/hunt/H*; do
+for h in /verif/hunt/[HG]*; do
   for f in "$h"/*.rs; do
     n=$(basename "$h")_$(basename "$f" .rs)
     cp "$f" "$W/r/tests/$n.rs"
@@ -16,7 +16,7 @@ done
 cd "$W/r"
 for t in tests/*.rs; do
   n=$(basename $t .rs)
-  case "$n" in *abort*|*mem*) continue;; esac      # process-aborting / allocator-counting tests are run by hand
+  case "$n" in *abort*|*mem*|*fuzz*|*hunt2*) continue;; esac      # process-aborting / allocator-counting tests are run by hand
   out=$(CARGO_NET_OFFLINE=true timeout 1200 cargo test --offline --test $n -- --test-threads=1 2>&1)
   echo "== $n: $(echo "$out" | grep -E '^test result' | head -1)"
   echo "$out" | grep -E '^test .* FAILED' | sed 's/^/   /'
